@@ -64,6 +64,8 @@ def extra(tier, seed):
     out = static_named_outputs()
     out.append(run_native('C02:bounded:outputs-native', 'c02_outputs_native.py', [],
                           bound='unique_entry for K in 1..3 incl. zero gradients; named outputs under 3 name->index maps'))
+    out.append(run_native('C02:bounded:output-histories', 'c02_sequences.py', [],
+                          bound='binary logit, 12 rows: all orders of 3 evaluation points x scaled/unscaled; every kept output re-checked against closed forms'))
     out.append(run_native('C02:bounded:derivatives', 'c02_derivatives.py', [tier, str(seed)],
                           bound='see the harness bound string: formulas with 1-4 free parameters, closed forms, forward AD and Richardson differences', timeout=1500))
     return out
